@@ -236,10 +236,11 @@ class Case:
     """One differential case: `term` is a Coq term of type bool that must compute to true
     (typically `eqb (F input) expected_from_implementation`); `diag` optionally a term whose
     value is printed when the case fails; `data` is the JSON-able description for replay."""
-    __slots__ = ('term', 'diag', 'data')
+    __slots__ = ('term', 'diag', 'data', 'extra')
 
     def __init__(self, term: str, data: Any, diag: str | None = None) -> None:
         self.term, self.data, self.diag = term, data, diag
+        self.extra: dict = {}      # further Coq terms about the same case (statistics), never part of the verdict
 
 
 def _run_shard(path: pathlib.Path) -> tuple[int, str]:
